@@ -1287,3 +1287,63 @@ pub fn engine_logconc(cases: Vec<Value>, out: &mut NdjsonOut) {
         let _ = std::fs::remove_dir_all(&root);
     }
 }
+
+
+// sidecar_order: several writers use the store at the same time, each with its own kind of append; every
+// thread frame's sidecar line is delayed at cache.enter until a later frame's line is in the sidecar - which
+// can only happen if the seq mutex no longer covers the sidecar append of that kind.  Afterwards the full
+// sidecar must hold the frames in seq order, and after a restart the thread must go on gap-free.
+pub fn engine_sidecar_order(cases: Vec<Value>, out: &mut NdjsonOut) {
+    let hub = hub();
+    for case in cases {
+        hub.reset();
+        let mut env = StoreEnv::fresh("sco");
+        let setup = case.get("setup").and_then(|o| o.as_array()).cloned().unwrap_or_default();
+        run_ops_seq(&mut env, &setup);
+        hub.set_overtake_cache(Duration::from_millis(get_u64(&case, "wait_ms").unwrap_or(40)));
+        let env = Arc::new(env);
+        let actors = case.get("actors").and_then(|o| o.as_array()).cloned().unwrap_or_default();
+        let barrier = Arc::new(std::sync::Barrier::new(actors.len().max(1)));
+        let mut hs = Vec::new();
+        for a in actors {
+            let env = env.clone();
+            let barrier = barrier.clone();
+            hs.push(std::thread::spawn(move || {
+                barrier.wait();
+                let ops = a.get("ops").and_then(|o| o.as_array()).cloned().unwrap_or_default();
+                let mut oks = 0u64;
+                for op in &ops {
+                    if env.exec(op)["ok"].as_bool().unwrap_or(false) {
+                        oks += 1;
+                    }
+                }
+                oks
+            }));
+        }
+        let oks: u64 = hs.into_iter().map(|h| h.join().unwrap_or(0)).sum();
+        let overtaken = hub.end_overtake();
+        // the full sidecar of thread 0, as it is on disk
+        let tid = env.thread_id(0);
+        let side = env.cache_path(&tid, "full").and_then(|p| std::fs::read(p).ok()).unwrap_or_default();
+        let seqs: Vec<u64> = String::from_utf8_lossy(&side)
+            .lines()
+            .filter_map(|l| serde_json::from_str::<Value>(l).ok())
+            .filter_map(|v| v["seq"].as_u64())
+            .collect();
+        let in_order = seqs.iter().enumerate().all(|(i, q)| *q == i as u64);
+        let mut env = match Arc::try_unwrap(env) {
+            Ok(e) => e,
+            Err(_) => {
+                out.write(&json!({"id": case["id"], "error": "env still shared"}));
+                continue;
+            }
+        };
+        env.restart();
+        let after = case.get("after").and_then(|o| o.as_array()).cloned().unwrap_or_default();
+        let post = run_ops_seq(&mut env, &after);
+        let summary = log_summary(&env.data);
+        out.write(&json!({"id": case["id"], "ops_ok": oks, "overtaken": overtaken, "sidecar_seqs": seqs, "sidecar_in_order": in_order,
+                          "post_ok": post.iter().map(|r| r["ok"].clone()).collect::<Vec<_>>(), "summary": summary}));
+        env.cleanup();
+    }
+}
